@@ -467,6 +467,12 @@ func makeSortedSlicesFromMap(m map[string]interface{}) ([]string, []interface{})
 // on first entry, dedup can be nil. We use it to write the
 //
 //	same pointer for a SexpHash used in more than one place.
+// conversionInProgress marks, in the dedup cache, a record whose
+// conversion has begun and not finished. Meeting the mark again means
+// the record contains itself; following the cycle recursed until the
+// Go stack overflowed, a fatal error that no recover() can catch.
+type conversionInProgress struct{}
+
 func SexpToGo(sexp Sexp, env *Zlisp, dedup map[*SexpHash]interface{}) (result interface{}) {
 
 	cacheHit := false
@@ -526,8 +532,12 @@ func SexpToGo(sexp Sexp, env *Zlisp, dedup map[*SexpHash]interface{}) (result in
 		if alreadyGo, already := dedup[e]; already {
 			//P("SexpToGo dedup cache HIT! woot! alreadyGo = '%v' for src.TypeName='%v'", alreadyGo, e.TypeName)
 			cacheHit = true
+			if _, busy := alreadyGo.(conversionInProgress); busy {
+				panic(fmt.Errorf("cannot convert a '%s' that contains itself", e.TypeName))
+			}
 			return alreadyGo
 		}
+		dedup[e] = conversionInProgress{}
 
 		m := make(map[string]interface{})
 		for _, arr := range e.Map {
@@ -817,6 +827,9 @@ func SexpToGoStructs(
 			//P("SexpToGoStructs dedup cache HIT! woot! alreadyGoStruct = '%v' for src.TypeName='%v'", alreadyGoStruct, src.TypeName)
 			// already did it. Return alreadyGoStruct.
 			cacheHit = true
+			if _, busy := alreadyGoStruct.(conversionInProgress); busy {
+				return nil, fmt.Errorf("cannot convert a '%s' record that contains itself to a Go struct", src.TypeName)
+			}
 			vo := reflect.ValueOf(alreadyGoStruct).Elem()
 			dst := targVa.Elem()
 			if !vo.Type().AssignableTo(dst.Type()) {
@@ -836,6 +849,14 @@ func SexpToGoStructs(
 
 			return target, nil
 		}
+
+		dedup[src] = conversionInProgress{}
+		defer func() {
+			// a conversion that failed leaves no mark behind
+			if _, busy := dedup[src].(conversionInProgress); busy {
+				delete(dedup, src)
+			}
+		}()
 
 		tn := src.TypeName
 		//P("dedup miss on src='%#v', tn='%s', target.(type) == %T", src, tn, target)
